@@ -1,6 +1,6 @@
 from datetime import datetime
 
-from dateparser.conf import settings
+from dateparser.conf import settings, synchronized
 from dateparser.date import DateData
 from dateparser.parser import _parser
 
@@ -18,6 +18,7 @@ class CalendarBase:
     def __init__(self, source):
         self.source = source
 
+    @synchronized
     def get_date(self):
         try:
             date_obj, period = self.parser.parse(self.source, settings)
